@@ -43,7 +43,9 @@ CONSTANTS Req,        \* request ids of a scenario
 Always == 99          \* failure budget "every call fails"
 
 VARIABLES
-    sc,         \* scenario: [exists, hasMe, raws, fReq, exec : per request; fHash, fData, len, cached : per data source]
+    sc,         \* scenario: [exists, hasMe, raws, fReq, exec : per request; fHash, fData, len, cached, dmg : per data source]
+                \* (dmg: the cache holds a DAMAGED file under the executable's hash - not cached; the integrity check of
+                \*  the file cache refuses it at every read and AddFile never rewrites an existing name)
     booted,     \* runImpl has queried the pending requests
     pend,       \* c.pendingRequests
     announced,  \* ghost: requests the daemon has been told about (start-up list, a transaction, or a direct call)
@@ -184,7 +186,7 @@ WGetExec(r, k) ==
          THEN /\ results' = [results EXCEPT ![r] = Append(@, Rep(Raw(r, k).eid, 255, 0))]
               /\ wpc' = [wpc EXCEPT ![r][k] = "done"]
               /\ UNCHANGED <<cache, crashed>>
-         ELSE /\ cache' = cache \cup {d}                  \* fetch path: c.fileCache.AddFile(dr.Data)
+         ELSE /\ cache' = (IF sc.dmg[d] THEN cache ELSE cache \cup {d})   \* fetch path: c.fileCache.AddFile(dr.Data)
               /\ IF SliceBug /\ sc.len[d] < 25            \* resValue[:32] on a slice of capacity < 32
                  THEN crashed' = TRUE /\ UNCHANGED wpc
                  ELSE crashed' = crashed /\ wpc' = [wpc EXCEPT ![r][k] = "atGate"]
